@@ -105,6 +105,7 @@ class C11(UdpCheck):
             # the kernel refuses datagrams towards ONE honest client for a while: the others must not notice
             victim = rng.randrange(n)
             plan.append({"op": "sockerr", "t": round(1.5 + rng.random() * (dur - 6), 3), "d": rng.choice([0.3, 0.8]), "c": victim})
+            cfg["sockerr_victim"] = victim
         cfg["duration"] = dur
         return {"cfg": cfg, "plan": plan}
 
@@ -221,6 +222,8 @@ class C11(UdpCheck):
             if receiver != "S":
                 echoed[(receiver, s)] += 1
         for cn in w.clients:
+            if cfg.get("sockerr_victim") == cn.idx:
+                continue        # this client's own datagrams were refused by the (simulated) kernel: only the OTHERS are judged
             if cfg.get("blocked_client") == cn.idx:
                 if cn.client is not None and cn.client.connected():
                     vs.append({"kind": "blocked_client_connected", "key": entry, "detail": cn.name})
